@@ -100,7 +100,7 @@ def run_shard(shard):
             continue
         judge_text(acc, "catalogue", it.mode, it.version, it.teal, {"source": "catalogue", "mode": it.mode, "version": it.version, "desc": jsonable(it.desc)}, seen,
                    anytype=it.anytype)
-    for gen in (feed.corpus_items(pt, rng, shard["shard"], shard["nshards"]), feed.label_items(pt, rng, shard["labels"]), feed.sequence_items(pt, rng, shard["labels"]), feed.router_items(pt, rng, shard["routers"]),
+    for gen in (feed.corpus_items(pt, rng, shard["shard"], shard["nshards"]), feed.label_items(pt, rng, shard["labels"]), feed.tail_items(pt, rng, 3 * shard["labels"]), feed.sequence_items(pt, rng, shard["labels"]), feed.router_items(pt, rng, shard["routers"]),
                 feed.abi_items(pt, rng, shard["abi"])):
         for it in gen:
             if it.teal is None:
